@@ -1,3 +1,4 @@
+import PoolModel.Generated.C18Facts
 /-! # C18 — auctioneer subscriptions: handshake algebra, reconnect backoff, error-channel switch
 
 Executable model (core Lean only) of
@@ -96,6 +97,26 @@ def connLoop (minB maxB : Int) : (remaining : Nat) → (fails : Nat) → (backof
 `numRetries ≤ 0` the loop body never runs, `err` stays nil and the code goes on to open the stream. -/
 def connect (initB minB maxB : Int) (numRetries fails : Nat) : ConnRes :=
   if numRetries = 0 then ⟨[], [], true⟩ else connLoop minB maxB numRetries fails initB
+
+/-- the value a printed argument list of a `connectServerStream(initialBackoff, numRetries)` call denotes, given the
+configured minimum and the regenerated constant `reconnectRetries` (argument lists are regenerated from the source:
+`Pool.Gen.C18.firstConnectArgs`, `Pool.Gen.C18.reconnectArgs`) -/
+def connectArgsOf (args : String) (minB : Int) : Option (Int × Nat) :=
+  if args = "c.cfg.MinBackoff, reconnectRetries" then some (minB, Pool.Gen.C18.reconnectRetries)
+  else if args = "0, reconnectRetries" then some (0, Pool.Gen.C18.reconnectRetries)
+  else none
+
+/-- the reconnect of `HandleServerShutdown` as the source spells it now -/
+def reconnect (minB maxB : Int) (fails : Nat) : Option ConnRes :=
+  match Pool.Gen.C18.reconnectArgs with
+  | [a] => (connectArgsOf a minB).map fun p => connect p.1 minB maxB p.2 fails
+  | _ => none
+
+/-- the first connect of `connectAndAuthenticate` as the source spells it now -/
+def firstConnect (minB maxB : Int) (fails : Nat) : Option ConnRes :=
+  match Pool.Gen.C18.firstConnectArgs with
+  | [a] => (connectArgsOf a minB).map fun p => connect p.1 minB maxB p.2 fails
+  | _ => none
 
 /-! ## auctioneer/err_chan_switch.go
 
